@@ -467,20 +467,39 @@ func isErrTest(cond ssa.Value) bool {
 // callWrites: the call receives the writer w, a value built from it (a
 // printer created by printer.New(w)), as an argument or receiver.
 func callWrites(p *core.Prog, call *ssa.Call, w *ssa.Parameter) bool {
-	derived := func(v ssa.Value) bool {
+	var derivedN func(v ssa.Value, depth int) bool
+	derivedN = func(v ssa.Value, depth int) bool {
 		v = core.Strip(v)
 		if v == w {
 			return true
 		}
-		if cl, ok := v.(*ssa.Call); ok {
-			for _, a := range cl.Call.Args {
+		if depth > 3 {
+			return false
+		}
+		switch x := v.(type) {
+		case *ssa.Call:
+			for _, a := range x.Call.Args {
 				if core.Strip(a) == w {
+					return true
+				}
+			}
+		case *ssa.MakeInterface:
+			return derivedN(x.X, depth+1)
+		case *ssa.UnOp:
+			if x.Op == token.MUL {
+				return derivedN(x.X, depth+1)
+			}
+		case *ssa.Alloc:
+			// a local that holds a value built from the writer (p := printer.New(w))
+			for _, st := range core.AllStoresToCell(x) {
+				if derivedN(st.Val, depth+1) {
 					return true
 				}
 			}
 		}
 		return false
 	}
+	derived := func(v ssa.Value) bool { return derivedN(v, 0) }
 	if call.Call.IsInvoke() && derived(call.Call.Value) {
 		return true
 	}
